@@ -25,6 +25,17 @@ long pick_limit(Src &s, long a, long b) {   // around a (and b)
   switch (s.below(12)) { case 0: return -1; case 1: return 0; case 2: return 1; case 3: return a - 1; case 4: return a; case 5: return a + 1;
     case 6: return b - 1; case 7: return b; case 8: return b + 1; case 9: return 1 << 20; case 10: return a / 2; default: return a + 1 + (long)s.below(64); }
 }
+struct Line { std::string text; size_t min; bool cont; };   // min = what the line adds to the smallest defensible measure (continuation line: its content without the surrounding whitespace)
+// names + values of the fields parsed so far for requests still in progress on the server's connections (read only)
+size_t parsed_header_bytes(World &w) {
+  size_t worst = 0; if (!w.http) return 0;
+  struct evhttp_connection *c;
+  TAILQ_FOREACH(c, &w.http->connections, next) { struct evhttp_request *r;
+    TAILQ_FOREACH(r, &c->requests, next) { if (!r->input_headers) continue; size_t t = 0; struct evkeyval *kv;
+      TAILQ_FOREACH(kv, r->input_headers, next) t += strlen(kv->key) + strlen(kv->value);
+      worst = std::max(worst, t); } }
+  return worst;
+}
 }  // namespace
 
 extern "C" int LLVMFuzzerInitialize(int *, char ***) { sim_mem_install(); return 0; }
@@ -34,21 +45,34 @@ extern "C" int LLVMFuzzerTestOneInput(const uint8_t *data, size_t size) {
   verif_case_begin("C25");
   Src s(data, size);
   // ---- the request
-  std::string reqline = "POST /p HTTP/1.1";
-  std::vector<std::string> fields; fields.push_back("Host: h");
   static const size_t BIG[] = {0, 1, 10, 100, 300, 1000, 5000, 40000, 70000};
-  bool huge_line = s.flag();
-  if (huge_line) { size_t n = s.chance(1, 5) ? BIG[5 + s.below(4)] : s.below(400); fields.push_back("X-Big: " + std::string(n, 'a')); }
-  else { int k = s.below(40); for (int i = 0; i < k; i++) fields.push_back("X-" + std::to_string(i) + ": v" + std::string(s.below(4), 'w')); }
+  std::vector<Line> lines; size_t n_cont = 0;
+  auto field = [&](const std::string &t) { lines.push_back({t, t.size(), false}); };
+  auto cont = [&](unsigned v, size_t n) {   // continuation line (obs-fold): leading SP/HTAB run, n >= 1 content bytes, sometimes trailing whitespace
+    static const char *LEAD[] = {" ", "\t", "  ", " \t "};
+    lines.push_back({std::string(LEAD[v & 3]) + std::string(n, (char)('f' + v % 5)) + ((v & 4) ? " " : ""), n, true}); n_cont++; };
+  field("Host: h");
+  uint32_t shape = s.below(4);   // 0 many short lines, 1 one huge line, 2 one field folded over many continuation lines, 3 short lines with continuation lines sprinkled in
+  if (shape == 1) { size_t n = s.chance(1, 5) ? BIG[5 + s.below(4)] : s.below(400); field("X-Big: " + std::string(n, 'a')); }
+  else if (shape == 2) {
+    static const size_t M[] = {40, 100, 250}, LMAX[] = {256, 64, 8};   // the value is re-allocated per continuation line: keep lines x lines x length bounded
+    uint32_t big = s.chance(1, 4) ? 1 + s.below(3) : 0; size_t m = big ? M[big - 1] : s.below(24), L = 1 + s.below((uint32_t)(big ? LMAX[big - 1] : 64)); unsigned v = s.below(8);
+    field("X-Fold: start");
+    for (size_t i = 0; i < m; i++) cont(v + (unsigned)i, i % 3 == 2 ? 1 + i % 5 : L); }
+  else { int k = s.below(40); for (int i = 0; i < k; i++) { uint32_t v = shape == 3 ? s.below(16) : s.below(4);
+      field("X-" + std::to_string(i) + ": v" + std::string(v & 3, 'w'));
+      for (uint32_t j = 0; j + 1 < (v >> 2); j++) cont(v + j + (unsigned)i, 1 + (v * 7 + i * 3 + j) % 40); } }
+  size_t uri_pad = s.chance(1, 8) ? (s.chance(1, 4) ? BIG[5 + s.below(3)] : s.below(300)) : 0;   // the request line is a long single line too
+  std::string reqline = "POST /p" + std::string(uri_pad, 'u') + " HTTP/1.1";
   int bkind = s.below(3);   // 0 none, 1 content-length, 2 chunked
   size_t blen = 0; if (bkind) { blen = s.chance(1, 8) ? BIG[5 + s.below(4)] : (s.flag() ? BIG[s.below(5)] : s.below(600)); }
   std::string body(blen, 'b'); for (size_t i = 0; i < blen; i += 7) body[i] = (char)('A' + (i / 7) % 26);
   bool expect = bkind && s.chance(1, 5);
-  if (expect) fields.push_back("Expect: 100-continue");
+  if (expect) field("Expect: 100-continue");
   std::string wire_body; size_t long_chunk_line = 0;
-  if (bkind == 1) { fields.push_back("Content-Length: " + std::to_string(blen)); wire_body = body; }
+  if (bkind == 1) { field("Content-Length: " + std::to_string(blen)); wire_body = body; }
   else if (bkind == 2) {
-    fields.push_back("Transfer-Encoding: chunked");
+    field("Transfer-Encoding: chunked");
     int k = 1 + s.below(4); size_t off = 0;
     if (s.chance(1, 6) && !(verif_known(K_CHUNKLINE) && (verif_known_skipped(K_CHUNKLINE), true))) { static const size_t Z[] = {10, 1000, 40000, 70000}; long_chunk_line = Z[s.below(4)]; }
     for (int i = 0; i < k && off < blen; i++) { size_t n = (i == k - 1) ? blen - off : 1 + s.below((uint32_t)(blen - off)); char b[32]; snprintf(b, sizeof b, "%zx\r\n", n);
@@ -57,21 +81,25 @@ extern "C" int LLVMFuzzerTestOneInput(const uint8_t *data, size_t size) {
     if (blen == 0 && long_chunk_line) wire_body += std::string(long_chunk_line, '0');
     wire_body += "0\r\n\r\n";
   }
-  size_t fields_min = 0, total_max = reqline.size() + 2 + 2; for (auto &f : fields) { fields_min += f.size(); total_max += f.size() + 2; }
-  std::string stream = reqline + "\r\n"; for (auto &f : fields) stream += f + "\r\n"; stream += "\r\n"; size_t hdr_bytes = stream.size(); stream += wire_body;
+  size_t fields_min = 0, total_max = reqline.size() + 2 + 2; for (auto &f : lines) { fields_min += f.min; total_max += f.text.size() + 2; }
+  std::string stream = reqline + "\r\n"; std::vector<size_t> line_ends; line_ends.push_back(stream.size());
+  for (auto &f : lines) { stream += f.text + "\r\n"; line_ends.push_back(stream.size()); }
+  stream += "\r\n"; size_t hdr_bytes = stream.size(); stream += wire_body;
   // optionally cut the request short (never completes): inside the header section, or inside the long chunk-size line
   bool complete = true; uint32_t cutmode = s.below(10);
   if (cutmode == 1 && hdr_bytes > 4) {
-    size_t bl = huge_line ? stream.find("X-Big: ") : std::string::npos;
+    size_t bl = shape == 1 ? stream.find("X-Big: ") : std::string::npos;
     if (bl != std::string::npos && s.flag()) { size_t le = stream.find("\r\n", bl); stream.resize(le - s.below((uint32_t)std::min<size_t>(le - bl, 8))); }   // inside / at the end of the huge line, no line end
     else stream.resize(hdr_bytes - 3 - s.below((uint32_t)std::min<size_t>(hdr_bytes - 4, 40)));
     complete = false; }
   else if (cutmode == 2 && long_chunk_line) { stream.resize(hdr_bytes + long_chunk_line - 1); complete = false; }
+  else if (cutmode == 3 && uri_pad) { stream.resize(reqline.size() - s.below((uint32_t)std::min<size_t>(reqline.size(), 12))); complete = false; }   // inside / at the end of the request line, no line end
   // ---- limits
   long H = pick_limit(s, (long)fields_min, (long)total_max), B = pick_limit(s, (long)blen, (long)blen);
   if (H < -1) H = 0; if (B < -1) B = 0;
   bool lingering = s.chance(1, 3);
-  TR("request: %zu fields (%s), header min=%zu max=%zu, body kind=%d len=%zu expect=%d long-chunk-line=%zu, %s (%zu bytes on the wire)", fields.size(), huge_line ? "one huge line" : "short lines", fields_min, total_max, bkind, blen, expect, long_chunk_line, complete ? "complete" : "cut short", stream.size());
+  static const char *SHAPE[] = {"short lines", "one huge line", "one folded field", "short lines with folds"};
+  TR("request: request line %zu bytes, %zu field lines + %zu continuation lines (%s), header min=%zu max=%zu, body kind=%d len=%zu expect=%d long-chunk-line=%zu, %s (%zu bytes on the wire)", reqline.size(), lines.size() - n_cont, n_cont, SHAPE[shape], fields_min, total_max, bkind, blen, expect, long_chunk_line, complete ? "complete" : "cut short", stream.size());
   TR("limits: max_headers_size=%ld max_body_size=%ld lingering=%d", H, B, lingering);
 
   World w; w.backend = s.below(8) < 6 ? 0 : 1;
@@ -81,28 +109,31 @@ extern "C" int LLVMFuzzerTestOneInput(const uint8_t *data, size_t size) {
   if (lingering) { int r = evhttp_set_flags(w.http, EVHTTP_SERVER_LINGERING_CLOSE); CHECK(r == 0, "C25/set-flags-failed", "evhttp_set_flags=%d", r); }
 
   bool hdr_ok_min = H < 0 || (long)fields_min <= H, hdr_ok_max = H < 0 || (long)total_max <= H, body_ok = B < 0 || (long)blen <= B;
-  int delivered_any = 0, rejected_any = 0;
+  int delivered_any = 0, rejected_any = 0; bool line_segs = false;
   for (int k = 0; k < 2; k++) {
-    std::vector<size_t> cuts;
+    std::vector<size_t> cuts; size_t parsed_hw = 0;
     if (k == 1) {
-      uint32_t m = s.below(3);
+      uint32_t m = s.below(4);
       if (m == 0) { int n = 1 + s.below(6); for (int i = 0; i < n; i++) cuts.push_back(s.below((uint32_t)stream.size() + 1)); }
       else if (m == 1) { size_t step = 500 + s.below(4000); for (size_t p = step; p < stream.size() && cuts.size() < 40; p += step) cuts.push_back(p); }
+      else if (m == 3) { size_t from = s.below((uint32_t)line_ends.size()); for (size_t i = from; i < line_ends.size() && cuts.size() < 16; i++) cuts.push_back(line_ends[i]); line_segs = true; }   // one segment per line
       else { cuts.push_back(hdr_bytes > 2 ? hdr_bytes - 2 : 1); cuts.push_back(hdr_bytes); if (hdr_bytes + 1 < stream.size()) cuts.push_back(hdr_bytes + 1 + s.below((uint32_t)(stream.size() - hdr_bytes - 1))); }
       std::sort(cuts.begin(), cuts.end()); cuts.erase(std::unique(cuts.begin(), cuts.end()), cuts.end());
     }
     w.input_high_water = 0;
     w.connect_client();
-    size_t prev = 0; for (size_t i = 0; i <= cuts.size(); i++) { size_t e = i < cuts.size() ? std::min(cuts[i], stream.size()) : stream.size(); if (e > prev) w.send_segment(stream.data() + prev, e - prev); prev = std::max(prev, e); }
+    size_t prev = 0; for (size_t i = 0; i <= cuts.size(); i++) { size_t e = i < cuts.size() ? std::min(cuts[i], stream.size()) : stream.size(); if (e > prev) { w.send_segment(stream.data() + prev, e - prev); parsed_hw = std::max(parsed_hw, parsed_header_bytes(w)); } prev = std::max(prev, e); }
     std::vector<Delivered> D = w.delivered; std::vector<Response> RS = parse_responses(w.resp, w.peer_closed); bool closed = w.peer_closed; size_t hw_ = w.input_high_water;
     w.close_client();
     int final_code = 0; for (auto &r : RS) if (r.code >= 200) { final_code = r.code; break; }
-    TR("segmentation %d (%zu cuts): delivered=%zu final status=%d closed=%d input high-water=%zu", k, cuts.size(), D.size(), final_code, closed, hw_);
+    TR("segmentation %d (%zu cuts): delivered=%zu final status=%d closed=%d input high-water=%zu parsed-fields high-water=%zu", k, cuts.size(), D.size(), final_code, closed, hw_, parsed_hw);
     CHECK(D.size() <= 1, "C25/duplicate-delivery", "one request sent, %zu delivered", D.size());
     if (!D.empty()) {
       delivered_any++;
       CHECK(complete, "C25/incomplete-delivered", "the request was cut short but was delivered");
       CHECK(hdr_ok_min, "C25/over-limit-headers-delivered", "header section is at least %zu bytes (field lines without CRLF) but max_headers_size=%ld; delivered anyway", fields_min, H);
+      size_t seen = 0; for (auto &h : D[0].headers) seen += h.first.size() + h.second.size();
+      CHECK(H < 0 || (long)seen <= H, "C25/delivered-fields-exceed-limit", "the callback was handed %zu bytes of field names + values with max_headers_size=%ld", seen, H);
       CHECK(body_ok, "C25/over-limit-body-delivered", "body of %zu bytes delivered with max_body_size=%ld", blen, B);
       CHECK(D[0].body == body, "C25/body-damaged", "delivered body (%zu bytes) differs from the %zu bytes sent", D[0].body.size(), blen);
       CHECK(final_code == 200, "C25/delivered-status", "delivered but final status %d", final_code);
@@ -112,6 +143,7 @@ extern "C" int LLVMFuzzerTestOneInput(const uint8_t *data, size_t size) {
       CHECK(!(hdr_ok_max && body_ok), "C25/under-limit-rejected", "header section is at most %zu bytes and the body %zu bytes, limits are %ld / %ld, yet the request was not delivered (status %d, closed=%d)", total_max, blen, H, B, final_code, closed);
       CHECK(final_code == 413 || final_code == 400 || closed, "C25/over-limit-no-answer", "over-limit request neither answered with 413/400 nor closed (status %d)", final_code);
     }
+    CHECK(H < 0 || (long)parsed_hw <= H, "C25/parsed-fields-exceed-limit", "a request in progress held %zu bytes of parsed field names + values with max_headers_size=%ld", parsed_hw, H);
     if (H >= 0 && B >= 0) {
       size_t bound = (size_t)std::max(H, B) + 2 * QUANTUM;
       CHECK(hw_ <= bound, long_chunk_line ? K_CHUNKLINE : "C25/unbounded-buffering", "input buffer held %zu bytes with max_headers_size=%ld max_body_size=%ld (bound: max limit + 2 read quanta = %zu)", hw_, H, B, bound);
@@ -124,6 +156,7 @@ extern "C" int LLVMFuzzerTestOneInput(const uint8_t *data, size_t size) {
   bool nt = near(H, (long)fields_min) || near(H, (long)total_max) || (bkind && near(B, (long)blen));
   if (delivered_any) verif_class("delivered"); if (rejected_any) verif_class("rejected"); if (!complete) verif_class("cut_short");
   if (bkind == 2) verif_class("chunked"); if (bkind == 1) verif_class("content_length"); if (expect) verif_class("expect_continue"); if (lingering) verif_class("lingering");
+  if (n_cont) verif_class("folded_header"); if (n_cont >= 40) verif_class("many_continuation_lines"); if (uri_pad) verif_class("long_request_line"); if (line_segs) verif_class("segment_per_line");
   if (long_chunk_line) verif_class("long_chunk_size_line"); if (stream.size() > 20000) verif_class("big_input"); if (H >= 0 && B >= 0) verif_class("both_limits_finite");
   if (near(H, (long)fields_min) || near(H, (long)total_max)) verif_class("header_limit_at_boundary"); if (bkind && near(B, (long)blen)) verif_class("body_limit_at_boundary");
   verif_case_end(nt, s.h);
